@@ -42,6 +42,12 @@ CHECKS = {
  "C01": dict(engine="mirsmt", technique="SMT over a sequential encoding generated from the MIR of scenario programs (Rust, /verif/mirharness) and of metrics::recorder (LocalRecorderGuard::{new,drop}, with_local_recorder, with_recorder, set_global_recorder), including unwinding edges; ghost scope list as oracle; counterexamples replayed natively by linking the same scenario source against the real crate",
     text="for every solver-chosen branch of the scenario programs (nested closures to depth 3, guards in LIFO and arbitrary order, leaked guard, panic unwinding through a scope, global/no-op fall-through): every emission is dispatched exactly once to the innermost live local recorder, else the global, else the no-op recorder, never to a recorder whose installing borrow ended; the two known weaknesses (K1 FIFO guard drop, K2 leaked guard) are re-derived, replayed natively and reported as KNOWN-FINDING",
     note="one thread; thread-local isolation is the language guarantee; macro forms (key/metadata as spelled) not covered yet", ref="§4 C01"),
+ "C09": dict(engine="mirsmt", technique="SMT (linear integer arithmetic; z3 cross-checked by cvc5) over a sequential encoding generated from the MIR of PayloadWriter::{new,write_*,commit,payloads} and Payloads::{next_payload,drop} with length-abstract byte buffers (segments with symbolic lengths); counterexamples replayed natively with concrete lengths against an independent DogStatsD oracle",
+    text="for names, prefixes, tags and formatted values of every length, every max_payload_len < 2^32, framing on/off, and histories of writes and drains (incl. rejected-then-accepted and a second flush cycle): no panic, buffer edits only on payload boundaries, every payload within the limit, one complete message, exact length prefix, written/dropped counts match what was yielded",
+    note="dev-profile MIR (every +,- overflow-checked) so integer arithmetic is exact; itoa/ryu output lengths by contract; <=3 calls per history, <=3 histogram values, <=1 label each", ref="§4 C09"),
+ "C11": dict(engine="mirsmt", technique="SMT over the MIR of run_transport's start-up path for every buffer configuration (reduced scope); native replay by starting the exporter and reading from a client socket",
+    text="the transport thread reaches its event loop without panicking for buffer_size None and Some(n), n <= 2^24",
+    note="reduced claim: the mio event loop, client connect/stall/close sequences, frame streaming and delivery/ordering guarantees are NOT covered (they need a running process)", ref="§4 C11"),
 }
 NA = {}
 ids = [json.loads(l)["id"] for l in open(os.path.join(V, "properties.jsonl"))]
